@@ -90,7 +90,15 @@ func normExpr(e b6.Expression) interface{} {
 		}
 		f := x.Function
 		if x.Pipelined {
-			if fc, ok := f.AnyExpression.(b6.CallExpression); ok && !fc.Pipelined && len(fc.Args) > 0 {
+			h := f // a zero-argument call is its function
+			for {
+				hc, ok := h.AnyExpression.(b6.CallExpression)
+				if !ok || hc.Pipelined || len(hc.Args) > 0 {
+					break
+				}
+				h = hc.Function
+			}
+			if fc, ok := h.AnyExpression.(b6.CallExpression); ok && !fc.Pipelined && len(fc.Args) > 0 {
 				// a | F rest  ==  F a rest
 				for _, a := range fc.Args {
 					args = append(args, normExpr(a))
@@ -593,7 +601,10 @@ func culpritQuery(q *QNode) string {
 			return culpritQuery(c)
 		}
 	}
-	mode := "/" + modeName[queryOutcome(q).class]
+	mode := ""
+	if cl := queryOutcome(q).class; cl != "ok" {
+		mode = "/" + modeName[cl]
+	}
 	switch q.K {
 	case "tagged":
 		return "query-" + tagValueKey(strValue(q.Lit, q.V)) + mode
@@ -613,7 +624,10 @@ func culprit(n *Node) string {
 			return culprit(c)
 		}
 	}
-	mode := "/" + modeName[outcomeOf(n).class]
+	mode := ""
+	if cl := outcomeOf(n).class; cl != "ok" {
+		mode = "/" + modeName[cl]
+	}
 	switch n.K {
 	case "str":
 		if f := escapeFeatures(strValue(n.Lit, n.S)); f != "" {
@@ -634,6 +648,14 @@ func culprit(n *Node) string {
 			}
 			if n.Pipe && n.F.K == "call" && n.F.Pipe {
 				return "pipeline-head:pipelined-call" + mode
+			}
+			// a call without arguments prints as its function: a pipeline wrapped in such calls
+			h := n.F
+			for h.K == "call" && !h.Pipe && len(h.Args) == 0 {
+				h = h.F
+			}
+			if n.Pipe && h != n.F && h.K == "call" && h.Pipe {
+				return "pipeline-head:wrapped-pipelined-call" + mode
 			}
 		}
 	}
